@@ -45,10 +45,10 @@ def qv(t):
 # ----------------------------------------------------------------------------- problems by name
 # P = dict(name, max, cols=[(name, obj, lo, up, isint)], rows=[(name, sense, rhs, range, [(colname, coef)])])
 
-def load_block(h, P):
-    """LOAD op of h_io: rows refer to columns by index"""
+def load_block(h, P, mix=None):
+    """LOAD op of h_io: rows refer to columns by index; mix = k: LOADMIX (rows are added after the first k columns)"""
     idx = {c[0]: j for j, c in enumerate(P["cols"])}
-    out = ["LOAD h%d" % h, "LP %s %s %d %d" % (enc(P.get("name", "p")), "MAX" if P["max"] else "MIN", len(P["cols"]), len(P["rows"]))]
+    out = ["LOAD h%d" % h if mix is None else "LOADMIX h%d %d" % (h, mix), "LP %s %s %d %d" % (enc(P.get("name", "p")), "MAX" if P["max"] else "MIN", len(P["cols"]), len(P["rows"]))]
     for (n, o, l, u, it) in P["cols"]:
         out.append("COL %s %s %s %s %d" % (enc(n), qs(o), qs(l), qs(u), 1 if it else 0))
     for (n, s, r, g, ent) in P["rows"]:
@@ -63,6 +63,9 @@ def parse_dump(lines):
         return None
     h = lines[0]
     P = dict(max=h[1] == "MAX", name=dec(h[4]) if len(h) > 4 and h[4] != "-" else None, cols=[], rows=[])
+    if len(h) > 6:
+        P["objname"] = dec(h[5]) if h[5] != "-" else None      # lp->objname (NULL: the writers invent one)
+        P["intmarker"] = h[6] == "1"                           # lp->intmarker != NULL
     for t in lines[1:]:
         if t[0] == "C":
             P["cols"].append((dec(t[1]), qv(t[2]), qv(t[3]), qv(t[4]), t[5] == "1"))
@@ -238,6 +241,33 @@ def nlp_block(P, intern):
     for (n, s, r, g, ent) in P["rows"]:
         out.append("NR %d %s %s %s %d %s" % (intern(n), s, qs(r), qs(g), len(ent), " ".join("%d %s" % (intern(c), qs(v)) for c, v in ent)))
     return "\n".join(out)
+
+
+def slp_block(P, objname=None, intmarker=None):
+    """by-name problem with the names themselves (%-encoded) for the lpwrite / lpread queries of drv_io"""
+    on = objname if objname is not None else (P.get("objname") or "obj")
+    im = intmarker if intmarker is not None else P.get("intmarker", any(c[4] for c in P["cols"]))
+    out = ["SLP %d %s %s %d %d %d" % (1 if P["max"] else 0, enc(P["name"]) if P.get("name") is not None else "-", enc(on), 1 if im else 0,
+                                      len(P["cols"]), len(P["rows"]))]
+    for (n, o, l, u, it) in P["cols"]:
+        out.append("SC %s %s %s %s %d" % (enc(n), qs(o), qs(l), qs(u), 1 if it else 0))
+    for (n, s, r, g, ent) in P["rows"]:
+        out.append("SR %s %s %s %s %d %s" % (enc(n), s, qs(r), qs(g), len(ent), " ".join("%s %s" % (enc(c), qs(v)) for c, v in ent)))
+    return "\n".join(out)
+
+
+def lp_objname(P):
+    """the objective name ILLwrite_lp starts from: lp->objname, or "obj" made unique against the row names (ILLsymboltab_uname
+    with prefix "" : obj, obj_0, obj_1, ...)"""
+    if P.get("objname") is not None:
+        return P["objname"]
+    rn = set(r[0] for r in P["rows"])
+    if "obj" not in rn:
+        return "obj"
+    k = 0
+    while "obj_%d" % k in rn:
+        k += 1
+    return "obj_%d" % k
 
 
 def equiv_query(qid, P, P2):
